@@ -10,7 +10,7 @@ cxx = False
 fixed_lines = 1
 rule = ("scripts start with 'r begin' and end with 'r end'; stream 1 (exhaustive): the stand-alone counter at 0, 1, 2, max-1, "
         "max x all raise/lower words up to length 4; per object kind (harness metatype, harness buffer, library heap buffer, "
-        "library rawdata) every history of length <= 3 (quick; 4 thorough) over take/copy/drop/assign/assigno/ext on 2 objects "
+        "library rawdata) every history of length <= 3 (thorough: length 4 for the plain preset pair 1/1, length 3 for all 25 preset pairs) over take/copy/drop/assign/assigno/ext on 2 objects "
         "and 2 handles with counter presets 0, 1, 2, max-1, max; stream 2 (boundary): presets max-1/max/0 with assignment and "
         "self-assignment; stream 3: random histories over 3 objects of mixed kinds and 3 handles.  non-trivial = a history in "
         "which the code destroyed an object (callback log 'D' or finalised elements) or refused a reference, counted per distinct script")
@@ -61,18 +61,27 @@ def scripts(tier, seed, scale=1):
     # exhaustive histories per kind
     for kind in ("meta", "buf"):
         pairs = [(a, "1") for a in PRESETS] + [("max", "max"), ("1", "max")]
-        if tier != "quick":
-            pairs = [(a, b) for a in PRESETS for b in ("0", "1", "2", "max")]
         for p0, p1 in pairs:
             if True:
                 head = ["r begin", "r obj %s %s" % (kind, p0), "r obj %s %s" % (kind, p1)]
                 ops = _ops(2, 2, [True, True])
-                for hist in itertools.product(ops, repeat=depth):
+                # thorough: depth 4 for the plain pair, depth 3 for the others
+                d = depth if (tier == "quick" or (p0, p1) == ("1", "1")) else 3
+                for hist in itertools.product(ops, repeat=d):
                     out.append(("ex:%s:%s/%s:%s" % (kind, p0, p1, "|".join(x[2:] for x in hist)), head + list(hist) + ["r end"]))
+    if tier != "quick":
+        for kind in ("meta", "buf"):
+            for p0 in PRESETS:
+                for p1 in ("0", "2", "max-1", "max"):
+                    if (p0, p1) in (("max", "max"), ("1", "max")):
+                        continue
+                    head = ["r begin", "r obj %s %s" % (kind, p0), "r obj %s %s" % (kind, p1)]
+                    for hist in itertools.product(_ops(2, 2, [True, True]), repeat=3):
+                        out.append(("ex:%s:%s/%s:%s" % (kind, p0, p1, "|".join(x[2:] for x in hist)), head + list(hist) + ["r end"]))
     for kind, arg in (("rbuf", "2"), ("raw", "1")):
         head = ["r begin", "r obj %s %s" % (kind, arg), "r obj %s %s" % (kind, "1")]
         ops = _ops(2, 2, [False, False])
-        for hist in itertools.product(ops, repeat=depth):
+        for hist in itertools.product(ops, repeat=3):
             out.append(("ex:%s:%s" % (kind, "|".join(x[2:] for x in hist)), head + list(hist) + ["r end"]))
     # mixed kinds: a buffer handle cannot take library and harness buffers at once
     for hist in itertools.product(_ops(2, 2, [True, False]), repeat=2 if tier == "quick" else 3):
